@@ -64,7 +64,10 @@ fn tournament_case(c: &Case) -> (u64, u64, Option<(String, String)>, usize) {
     // exact law on value classes
     let mut want: Law<i64> = Law::new();
     let total = binom(n as u128, c.k as u128);
-    for v in VALUES {
+    let mut classes: Vec<i64> = c.values.clone();
+    classes.sort();
+    classes.dedup();
+    for v in classes {
         let le = c.values.iter().filter(|x| **x <= v).count() as u128;
         let lt = c.values.iter().filter(|x| **x < v).count() as u128;
         let num = binom(le, c.k as u128) - binom(lt, c.k as u128);
@@ -93,6 +96,18 @@ fn tournament_case(c: &Case) -> (u64, u64, Option<(String, String)>, usize) {
         }
     }
     (stats.leaves, stats.choice_points, None, law.mass.len())
+}
+
+fn permutations(v: &mut Vec<i64>, i: usize, out: &mut Vec<Vec<i64>>) {
+    if i == v.len() {
+        out.push(v.clone());
+        return;
+    }
+    for j in i..v.len() {
+        v.swap(i, j);
+        permutations(v, i + 1, out);
+        v.swap(i, j);
+    }
 }
 
 pub fn run(run: &mut Run) {
@@ -134,17 +149,56 @@ pub fn run(run: &mut Run) {
     }
     // Tournament
     let mut cases = vec![];
-    let max_n = if quick { 4 } else { 5 };
+    let max_n = if quick { 5 } else { 7 };
+    // representative populations for the sizes / tournament sizes whose full product is too large:
+    // all distinct (ascending, descending, shuffled), all equal, two and three value classes
+    let family = |n: usize| -> Vec<Vec<i64>> {
+        let asc: Vec<i64> = (1..=n as i64).collect();
+        let desc: Vec<i64> = asc.iter().rev().copied().collect();
+        let mut zig: Vec<i64> = vec![];
+        for i in 0..n {
+            zig.push(if i % 2 == 0 { (i / 2 + 1) as i64 } else { (n - i / 2) as i64 });
+        }
+        let two: Vec<i64> = (0..n).map(|i| if i < n / 2 { 1 } else { 2 }).collect();
+        let two_rev: Vec<i64> = two.iter().rev().copied().collect();
+        let three: Vec<i64> = (0..n).map(|i| (i % 3) as i64 + 1).collect();
+        let one_best_last: Vec<i64> = (0..n).map(|i| if i + 1 == n { 2 } else { 1 }).collect();
+        let one_best_first: Vec<i64> = (0..n).map(|i| if i == 0 { 2 } else { 1 }).collect();
+        vec![asc, desc, zig, vec![1; n], two, two_rev, three, one_best_last, one_best_first]
+    };
     for n in 1..=max_n {
         for k in 1..=n {
-            if n == 5 && k > 3 {
-                continue; // 60^4 leaves per population: beyond the thorough budget
+            // execution budget per case: lcm(1..n)^k leaves
+            let leaves = (mcx::lcm_upto(n as u128) as f64).powi(k as i32);
+            if leaves > if quick { 3.0e5 } else { 2.0e7 } {
+                continue;
             }
-            for values in all_value_vectors(n, &VALUES) {
-                cases.push(Case { values, k });
+            let full = n <= 4 || (n == 5 && k <= 3) || (!quick && n == 6 && k <= 2);
+            if full {
+                for values in all_value_vectors(n, &VALUES) {
+                    cases.push(Case { values, k });
+                }
+            }
+            // every ordering of n distinct values (positions matter to a sampler, values to the law)
+            if n <= 5 && leaves <= 3.0e5 {
+                let mut perm: Vec<i64> = (1..=n as i64).collect();
+                let mut all = vec![];
+                permutations(&mut perm, 0, &mut all);
+                for values in all {
+                    if !full || n >= 4 {
+                        cases.push(Case { values, k });
+                    }
+                }
+            }
+            if !full {
+                for values in family(n) {
+                    cases.push(Case { values, k });
+                }
             }
         }
     }
+    cases.sort_by(|a, b| (a.values.len(), a.k, &a.values).cmp(&(b.values.len(), b.k, &b.values)));
+    cases.dedup_by(|a, b| a.values == b.values && a.k == b.k);
     let results = mcx::par_map(cases.len(), |i| tournament_case(&cases[i]));
     let mut nontrivial = 0u64;
     for (i, (leaves, cps, v, outcomes)) in results.into_iter().enumerate() {
@@ -168,7 +222,7 @@ pub fn run(run: &mut Run) {
     run.distinct_nontrivial = nontrivial;
     run.rule = "every population of size 1..n over 3 values (ties included) x every tournament size; all grid word sequences explored on the real Tournament::select; the accumulated winner-value law is compared, as exact rationals, with [C(#<=v,k)-C(#<v,k)]/C(n,k); non-trivial = (population, k) scenarios whose law has more than one outcome".into();
     run.bound("max_population", json!(max_n));
-    run.bound("tournament_sizes", json!("1..=n (n=5: k<=3)"));
+    run.bound("tournament_sizes", json!("every k with lcm(1..n)^k executions within the per-case budget (3e5 quick, 2e7 thorough); full population product for n<=4, n=5 k<=3 (thorough n=6 k<=2); all orderings of distinct values for n<=5; a 9-member population family otherwise"));
     run.bound("best_worst_population_sizes", json!("1..=6"));
     run.bound("alphabet", json!("Grid(lcm(1..n))"));
     run.assumptions = vec![
